@@ -152,6 +152,7 @@ async def tls_case(part, r, key):
     which = r.choice(['imap', 'imap', 'sieve'])
     split = r.random() < 0.35
     loop = asyncio.get_running_loop()
+    loop.set_exception_handler(lambda lp, context: None)      # a handshake that fails on purpose is not news
     if which == 'imap':
         inject = r.choice(INJECT_IMAP)
         backend, config = await backends.make_dict(demo_data=True, tls_enabled=True, ssl_context=server_ctx(), bad_command_limit=None)
@@ -217,6 +218,8 @@ async def tls_case(part, r, key):
 
 
 def worker(job):
+    import logging
+    logging.disable(logging.CRITICAL)
     seed, n = job
     r = random.Random(seed)
     part = Part()
